@@ -709,8 +709,10 @@ def compose_gluing(c, st, r, f, g, order):
         return t if x is A else mk_shift(nA, t)
     lf, lg = inj(f, tab(f.f["t"])), inj(g, tab(g.f["s"]))
     cands = []
-    _find_cc(normalise(st, tab(r.f["s"])), cands)
-    _find_cc(normalise(st, tab(r.f["t"])), cands)
+    fields = [tab(r.f["s"]), tab(r.f["t"]), tab(r.f["h"].f["s"].f["values"]), tab(r.f["h"].f["t"].f["values"]),
+              r.f["h"].f["w"].f["0"].t]
+    for t_ in fields:
+        _find_cc(normalise(st, t_), cands)
     q = None
     for cc in cands:
         x, y, n = cc[1], cc[2], as_poly(cc[3])
